@@ -1128,6 +1128,14 @@ pub struct NontermDefn {
     pub(crate) rhs_expr_id: ExprId,
 }
 
+// Read-only accessor for the external verification harness (cargo feature `verif`).
+#[cfg(feature = "verif")]
+impl NontermDefn {
+    pub fn verif_parts(&self) -> (Ustr, HumanSpan, Option<(Ustr, HumanSpan)>, ExprId) {
+        (self.lhs_name, self.lhs_span, self.shell, self.rhs_expr_id)
+    }
+}
+
 #[derive(Debug, Clone, PartialEq)]
 pub enum Statement {
     CallVariant {
